@@ -74,8 +74,17 @@ fn check_list(xs: &[f64], ys: &[f64], cx: &mut Cx) -> Verdict {
     }
     if strictly {
         // evaluated through the real Piecewise::evaluate: interpolant between knots, ordinate at knots, extrapolation outside
-        let mut queries: Vec<f64> = order_alphabet(&ends).into_iter().filter(|x| x.is_finite() && x.abs() <= 1e7).collect();
-        queries.extend(fx.windows(2).map(|w| w[0] * 0.5 + w[1] * 0.5));
+        let mut queries: Vec<f64> = if n <= 1100 {
+            order_alphabet(&ends).into_iter().filter(|x| x.is_finite() && x.abs() <= 1e7).collect()
+        } else {
+            // huge lists: ~300 evenly spread ends with their one-ulp neighbours (the per-segment checks above cover every segment)
+            ends.iter().step_by(n / 150 + 1).flat_map(|&e| [exact::pred(e), e, exact::succ(e)]).filter(|x| x.is_finite() && x.abs() <= 1e7).collect()
+        };
+        if n <= 1100 {
+            queries.extend(fx.windows(2).map(|w| w[0] * 0.5 + w[1] * 0.5));
+        } else {
+            queries.extend(fx.windows(2).step_by(n / 150 + 1).map(|w| w[0] * 0.5 + w[1] * 0.5));
+        }
         queries.push(fx[0]);
         queries.push(fx[0] - 1.0);
         for x in queries {
@@ -90,7 +99,7 @@ fn check_list(xs: &[f64], ys: &[f64], cx: &mut Cx) -> Verdict {
                 return Err(Fail::new("linear(knots) evaluated at x is not the straight line through the bracketing knots", detail(json!({"x": fj(x), "bracketing_segment": j, "got": fj(got), "exact~": want.to_f64(), "tolerance~": t.to_f64()}))));
             }
         }
-        for k in 0..n {
+        for k in (0..n).step_by(if n <= 1100 { 1 } else { n / 300 + 1 }) {
             let got = pw.evaluate(fx[k]);
             let j = if k == 0 { 0 } else { k - 1 };
             let jj = ref_index(&ends, fx[k]);
@@ -128,7 +137,7 @@ pub fn check(thorough: bool, _seed: u64) -> Check {
         bounds: json!({"knots": format!("every knot list of length 2..{maxn}: abscissae in {{0,pred(1),1,1+2^-52,1+2^-51,2,-1,succ(-1),1e6,succ(1e6),3,succ(3)}}^n x ordinates in {{-1,0,2.5}}^n"),
             "queries": "for strictly increasing lists: finite part of A(ends), interval midpoints, every knot", "oracle": "running maximum; exact rational line; tolerance 2^6*2^-53*(|y_i|+|y_i+1|+|m|(|X_i|+|X_i+1|+|x|))"}),
     };
-    let sizes: Vec<usize> = [8usize, 9, 16, 17, 33, 65].into_iter().chain(if thorough { vec![10usize, 32, 64, 129, 257, 1025] } else { vec![] }).collect();
+    let sizes: Vec<usize> = [8usize, 9, 16, 17, 33, 65, 32768, 40000].into_iter().chain(if thorough { vec![10usize, 32, 64, 129, 257, 1025, 65537, 100001] } else { vec![] }).collect();
     let ns = sizes.len();
     let long = Phase {
         name: "long-knot-lists",
@@ -147,7 +156,7 @@ pub fn check(thorough: bool, _seed: u64) -> Check {
                         2 => if i % 3 == 2 { i_f - 2.5 } else { i_f },        // a step back every third knot
                         3 => 1e-3 * 1.5f64.powi((i % 40) as i32) + (i / 40) as f64 * 2e4, // geometric gaps
                         4 => 1.0 + i_f * f64::EPSILON,                        // steps of exactly machine epsilon (at offset 0)
-                        5 => if i % 4 == 3 { 0.0 } else { i_f * 0.25 },       // periodic return to the start (far out of order)
+                        5 => if i % 4 == 3 { 0.0 } else if i == n / 40 + 1 { n as f64 } else { i_f * 0.25 }, // periodic return to the start, and one early abscissa beyond all later ones
                         _ => i_f * i_f * 1e-3,                                // growing gaps
                     }
                 })
@@ -157,7 +166,7 @@ pub fn check(thorough: bool, _seed: u64) -> Check {
             check_list(&xs, &ys, cx)
         }),
         classes: vec![("out_of_order_abscissa", false), ("sub_epsilon_step", false), ("strictly_increasing_with_gaps>=eps", false), ("step_of_exactly_eps_or_2eps", false)],
-        bounds: json!({"knots": "n = 8,9,16,17,33,65 (also 10,32,64,129,257,1025 thorough) x 7 abscissa patterns (unit steps, repeated, periodic back steps, geometric, epsilon steps, periodic return to start, growing gaps) x offsets {0,-7.5,1e6} x 3 ordinate patterns"}),
+        bounds: json!({"knots": "n = 8,9,16,17,33,65,32768,40000 (also 10,32,64,129,257,1025,65537,100001 thorough) x 7 abscissa patterns (unit steps, repeated, periodic back steps, geometric, epsilon steps, periodic return to start, growing gaps) x offsets {0,-7.5,1e6} x 3 ordinate patterns"}),
     };
     Check {
         id: "C06",
